@@ -188,7 +188,10 @@ class PtnFilterChord(PtnFilter):
             A boolean on filter result
         """
 
-        return data not in self.ar if self.invert_filter else data in self.ar
+        # The whole size sequence must equal a row of self.ar
+        # (``data in self.ar`` is True as soon as any single element matches)
+        matched = bool(np.any(np.all(self.ar == np.asarray(data), axis=1)))
+        return not matched if self.invert_filter else matched
 
     class Option:
         """The methods available to use in fromChord
